@@ -13,6 +13,8 @@ import (
 	"time"
 
 	"github.com/compose-spec/compose-go/v2/cli"
+	"github.com/compose-spec/compose-go/v2/loader"
+	"github.com/compose-spec/compose-go/v2/types"
 	"github.com/sirupsen/logrus"
 
 	"verif/harness/internal/core"
@@ -184,6 +186,45 @@ func C17(c *core.Ctx) {
 		default:
 			if gotErr == nil {
 				fail("accepted", fmt.Sprintf("load succeeds with name %q; the rules define an error", got))
+			}
+		}
+		// the same files handed to the loader itself as parsed documents (ConfigFile.Config, nothing on disk under that name):
+		// without an explicit name or COMPOSE_PROJECT_NAME the name of the last file that sets one decides, and there is no
+		// directory to fall back on
+		if !explicit.Set && !ex.Set && !osv.Set && !de.Set && n%3 != 0 {
+			var cfs []types.ConfigFile
+			lastSet, lastText := false, ""
+			for i, f := range asList(pt["files"]) {
+				fm := asMap(f)
+				doc := map[string]interface{}{"services": map[string]interface{}{"a": map[string]interface{}{"image": "img"}}}
+				if asStr(fm["kind"]) != "none" {
+					doc["name"] = asStr(fm["text"])
+					lastSet, lastText = true, asStr(asMap(fm["v"])["v"])
+				}
+				cfs = append(cfs, types.ConfigFile{Filename: filepath.Join(dir, fmt.Sprintf("parsed%d.yaml", i+1)), Config: doc})
+			}
+			wantName := ""
+			if lastSet {
+				wantName = loader.NormalizeProjectName(lastText)
+			}
+			p, perr := func() (p *types.Project, err error) {
+				defer func() {
+					if r := recover(); r != nil {
+						err = fmt.Errorf("panic: %v", r)
+					}
+				}()
+				return loader.LoadWithContext(context.Background(), types.ConfigDetails{WorkingDir: dir, ConfigFiles: cfs, Environment: types.Mapping{"NV": "fromvar"}})
+			}()
+			c.Eval(key+" [parsed documents]", true)
+			switch {
+			case perr != nil && strings.HasPrefix(perr.Error(), "panic"):
+				fail("panic", perr.Error())
+			case wantName != "" && perr != nil:
+				fail("parsed-rejected", fmt.Sprintf("the files handed over as parsed documents fail to load (%v); the last file that sets a name gives %q", perr, wantName))
+			case wantName != "" && p.Name != wantName:
+				fail("parsed-wrong-name", fmt.Sprintf("the files handed over as parsed documents load as project %q; the last file that sets a name gives %q", p.Name, wantName))
+			case wantName == "" && perr == nil:
+				fail("parsed-accepted", fmt.Sprintf("no file sets a usable name and none is given, yet the parsed documents load as project %q", p.Name))
 			}
 		}
 		return nil
